@@ -184,7 +184,7 @@ func init() {
 				return true
 			})
 		}
-		hosts = append(hosts, "Example.COM", "WWW.Example.co.UK", "1.2.3.4", "127.0.0.1", "xn--e1afmkfd.xn--p1ai", "a-b.example.com", "a_b.example.com")
+		hosts = append(hosts, "Example.COM", "WWW.Example.co.UK", "1.2.3.4", "127.0.0.1", "xn--e1afmkfd.xn--p1ai", "a-b.example.com", "a_b.example.com", "a.com.example.com", "x.co.uk.shop.co.uk", "a.b.a.b", "10.4.3.4")
 		exhaustive := true
 		var mu sync.Mutex
 		c.parallel(len(hosts), func(i int) {
@@ -198,6 +198,12 @@ func init() {
 			for _, scheme := range []string{"http", "https", "ws"} {
 				for _, tail := range c17Tails {
 					c17CheckURL(c, scheme+"://"+h+tail, c17Sources, srcDomains, cnt)
+				}
+			}
+			// schemes of other lengths (a stride of the host names)
+			if i%11 == 0 {
+				for _, scheme := range []string{"chrome-extension", "safari-web-extension", "x"} {
+					c17CheckURL(c, scheme+"://"+h+"/p?q=1", c17Sources[:8], srcDomains[:8], cnt)
 				}
 			}
 			// hostname requests
